@@ -3,6 +3,13 @@
 import json, re
 V = "/verif"
 NOTES = {
+ "k01B": "caught by the unusable-key runs added in wave 5 (a malformed key silently becomes 'no key')",
+ "k02A": "caught (leaf skipped for a repeated nonce): retransmissions and same-nonce neighbours in the burst driver",
+ "k03A": "missed first (upper-case hex key decoded as base64): hex keys in upper and mixed case",
+ "k07A": "missed first under C07 (enum order of VERS/MINT differs from wire order; C05 caught it): pairs of extra known tags in wire order and swapped",
+ "k08B": "missed first (division by zero in a Debug-level diagnostic of the publication step after an interval without responses): publication step run at Debug/Trace after invalid-only traffic; stats driver added to C08",
+ "k15B": "missed first; judged under C16 (health_check_port equal to port refused): 8686 in the grid, hc = port in the seeded stream",
+ "k17B": "missed first (recorder not cleared when the queue was full): publications without draining, queue modelled in Trace_Server (force_push drops the oldest)",
  "h06A": "caught (thread-local offset scratch left dirty by a rejected decode): the replay decodes rejected and accepted inputs on one thread",
  "h06B": "missed first (log argument evaluated only at Trace level slices 8 bytes of a 4-byte input): library suites now run with a Trace-level logger",
  "h12B": "judged under C09 (a failed send ends the batch)",
